@@ -890,6 +890,17 @@ func GenSpec(t *rapid.T, o Opts) Spec {
 	}
 	for i := 0; i < ns; i++ {
 		switch k := rapid.IntRange(0, 9).Draw(t, "syskind"); {
+		case k < 2 && tab == "" && arch != "" && o.KnowsSys != nil:
+			// a syscall by name under an architecture this generator has no table for: fine to ask for when the
+			// library has none either (then the rule cannot be encoded as asked); skipped when the library knows it
+			n := pick(t, "sysname-foreign", []string{"read", "open", "execve", "openat", "exit_group"})
+			if o.KnowsSys(arch, n) {
+				continue
+			}
+			s.Sys = append(s.Sys, Sys{Text: n, Num: -2})
+			if s.Invalid == "" {
+				s.Invalid = "syscall name under an architecture without that syscall"
+			}
 		case k < 4 && len(names) > 0:
 			n := pick(t, "sysname", names)
 			if o.KnowsSys != nil && !o.KnowsSys(tab, n) {
